@@ -13,7 +13,8 @@ package main
 //   snapshot trees: a fixed list of trees over the names {a, b, ab, A}, depth
 //     <= 3, <= 9 entries (files, directories, empty directories); quick 3, thorough 8
 //   pattern sets: every single pattern of P = {a, /a, a/b, /a/b, *, a*, **/b,
-//     /a/**, /*/b, b, A, ab, /b/a, ?b, a/**/b}, and pairs (p, q): quick q in the
+//     /a/**, /*/b, b, A, ab, /b/a, ?b, a/**/b, /a/b/**, /a/a/**/b, /b/b/**,
+//     /a/*/**/b}, and pairs (p, q): quick q in the
 //     negated patterns {!a/b, !/a/a, !b, !**/b, !A} (+ a fixed list of positive
 //     pairs), thorough q in P u negated
 //   modes: include, exclude, iinclude, iexclude (thorough also: first pattern
@@ -178,7 +179,9 @@ func verifC20Modes(thorough bool) []verifC20Mode {
 }
 
 func verifC20PatternSets(thorough bool) [][]string {
-	P := []string{"a", "/a", "a/b", "/a/b", "*", "a*", "**/b", "/a/**", "/*/b", "b", "A", "ab", "/b/a", "?b", "a/**/b"}
+	// (the last four: absolute patterns with two and three fixed components before "**" - the directory
+	// pruning of a partial restore compares shallower directories with a prefix of such a pattern)
+	P := []string{"a", "/a", "a/b", "/a/b", "*", "a*", "**/b", "/a/**", "/*/b", "b", "A", "ab", "/b/a", "?b", "a/**/b", "/a/b/**", "/a/a/**/b", "/b/b/**", "/a/*/**/b"}
 	N := []string{"!a/b", "!/a/a", "!b", "!**/b", "!A"}
 	var sets [][]string
 	for _, p := range P {
@@ -319,7 +322,7 @@ func verifC20Detail(base map[string]any, kv ...any) map[string]any {
 func TestVerif_C20(t *testing.T) {
 	r := vh.Start(t, "C20")
 	defer r.Finish()
-	r.Rule("fixed snapshot trees (quick 3, thorough 8) x pattern sets (all singles of 15 patterns, pairs with negations; thorough all ordered pairs) x modes (include, exclude, iinclude, iexclude; thorough also mixed lists) x {no delete into empty target, --delete into pre-existing trees (quick 1, thorough 2)}; one real backup per shard, one real runRestore per element; non-trivial = the selection is a proper non-empty subset of the snapshot entries or, with --delete, of the pre-existing extra entries")
+	r.Rule("fixed snapshot trees (quick 3, thorough 8) x pattern sets (all singles of 19 patterns, pairs with negations; thorough all ordered pairs) x modes (include, exclude, iinclude, iexclude; thorough also mixed lists) x {no delete into empty target, --delete into pre-existing trees (quick 1, thorough 2)}; one real backup per shard, one real runRestore per element; non-trivial = the selection is a proper non-empty subset of the snapshot entries or, with --delete, of the pre-existing extra entries")
 	r.Assume("filter.Match (single pattern vs path) is the trusted primitive (C28)", "patterns are applied to locations relative to the snapshot:subfolder root", "regular files and directories only")
 
 	trees := verifC20Trees(r.Thorough())
